@@ -259,6 +259,7 @@ func runChild(ops []op, inject []string, traceProgress, views, snaps bool) (*chi
 	}
 	job := childJob{Base: res.base, Progress: filepath.Join(root, "progress"), Views: views, Ops: ops}
 	if snaps {
+		job.MaxFail = 40
 		job.SnapDir = filepath.Join(root, "snaps")
 		os.MkdirAll(job.SnapDir, 0o755)
 	}
@@ -589,8 +590,25 @@ func replayProgress(sc script, prog []progLine) (m *model, inflight int, errs []
 }
 
 func runKill(r *lib.Run, caseIdx int, sc script, kt killTarget, seen *sync.Map) {
-	inj := fmt.Sprintf("%s:signal=KILL:when=%d", kt.syscall, kt.when)
-	res, err := runChild(sc.Ops, []string{inj}, false, false, false)
+	// when=N counts per thread and the runtime may spread the calls over other
+	// threads than in the reference run: if no thread reached N the child simply
+	// finished; try again with a smaller N (the position reached is read back from
+	// the trace in any case).
+	var res *childResult
+	var err error
+	inj := ""
+	for attempt, n := 0, kt.when; attempt < 3; attempt++ {
+		inj = fmt.Sprintf("%s:signal=KILL:when=%d", kt.syscall, n)
+		if res != nil {
+			os.RemoveAll(res.dir)
+		}
+		res, err = runChild(sc.Ops, []string{inj}, false, false, false)
+		r.Count("kill_child_runs", 1)
+		if err != nil || res.timedOut || !res.ended || n == 1 {
+			break
+		}
+		n = max(1, n*2/3)
+	}
 	if res != nil {
 		defer os.RemoveAll(res.dir)
 	}
@@ -843,11 +861,12 @@ func runFault(r *lib.Run, caseIdx int, sc script, inject []string) {
 		}
 		states = dedup(next)
 		if len(states) == 0 {
-			report("fault:write-accepted-after-failed-tail-repair", call, p.Msg, nil)
+			report("fault:write-accepted-while-unacknowledged-batch-still-in-log", call, p.Msg, nil)
 			return
 		}
-		if len(states) > 64 {
+		if len(states) > 200 {
 			r.Inconclusive("fault-state-set-too-large")
+			r.Note(fmt.Sprintf("state set too large: %s script under %v at call %s", sc.Profile, inject, call))
 			return
 		}
 		// the running store's view selects the states that are still possible
@@ -997,7 +1016,7 @@ func straceLayer(r *lib.Run, t *testing.T) {
 		}
 		return targets[a].refPos < targets[b].refPos
 	})
-	maxKills := r.N(170, 6000)
+	maxKills := r.N(140, 4000)
 	if len(targets) > maxKills {
 		// keep a seeded subset, spread over scripts
 		rng := lib.Rng("C14/kill-subset", 0)
